@@ -58,9 +58,11 @@ def classify (tbl : Table) (s : String) : Tok :=
 
 /-- expression trees: a leaf is a number or a variable name (decided by `float(token)` when it is evaluated),
     `app1`/`app2` are prefix / infix operators when `f.isOp` and calls `f(x)`, `f(l, r)` otherwise, `app0` is a
-    constant such as `pi` -/
+    constant such as `pi`.  `words` does not occur in formulas (`Expr.Over` excludes it); it stands for the
+    propositions of rule antecedents, which go through the same infix-to-postfix loop. -/
 inductive Expr where
   | leaf (s : String)
+  | words (ws : List String)     -- a run of plain words (a proposition `v is h* t` of a rule antecedent, C06)
   | app0 (f : Elem)
   | app1 (f : Elem) (x : Expr)
   | app2 (f : Elem) (l r : Expr)
@@ -69,6 +71,7 @@ deriving DecidableEq, Repr
 /-- `Function.Node.postfix()` as a token list -/
 def Expr.pfx : Expr → List Tok
   | .leaf s => [.operand s]
+  | .words ws => ws.map .operand
   | .app0 f => [.el f]
   | .app1 f x => x.pfx ++ [.el f]
   | .app2 f l r => l.pfx ++ r.pfx ++ [.el f]
@@ -81,6 +84,7 @@ def Elem.R (o : Elem) : Nat := 2 * o.prec
 /-- the node kinds are used consistently: constants are functions, operators have an associativity -/
 def Expr.Shape : Expr → Prop
   | .leaf _ => True
+  | .words _ => True
   | .app0 f => f.isOp = false
   | .app1 f x => (f.isOp = true → f.assoc ≠ 0) ∧ x.Shape
   | .app2 f l r => (f.isOp = true → f.assoc ≠ 0) ∧ l.Shape ∧ r.Shape
@@ -94,6 +98,7 @@ def Expr.Shape : Expr → Prop
     sub-expression may be parenthesised. -/
 inductive Pr : Nat → Nat → Expr → List Tok → Prop where
   | leaf (a b : Nat) (s : String) : Pr a b (.leaf s) [.operand s]
+  | words (a b : Nat) (ws : List String) : Pr a b (.words ws) (ws.map .operand)
   | const (a b : Nat) (f : Elem) : f.isOp = false → b ≤ f.R → Pr a b (.app0 f) [.el f]
   | un (a b : Nat) (u : Elem) (x : Expr) (ts : List Tok) : u.isOp = true → a ≤ u.L → b ≤ u.R →
       Pr (u.R + 1) b x ts → Pr a b (.app1 u x) (.el u :: ts)
@@ -111,6 +116,7 @@ def Prints (e : Expr) (ts : List Tok) : Prop := Pr 0 0 e ts
 /-- the printer with exactly the parentheses that are needed -/
 def Expr.prMin (a b : Nat) : Expr → List Tok
   | .leaf s => [.operand s]
+  | .words ws => ws.map .operand
   | .app0 f => if f.R < b then [.lp, .el f, .rp] else [.el f]
   | .app1 f x =>
     if f.isOp then
@@ -126,6 +132,7 @@ def Expr.prMin (a b : Nat) : Expr → List Tok
 /-- the printer that parenthesises every operator application -/
 def Expr.prFull : Expr → List Tok
   | .leaf s => [.operand s]
+  | .words ws => ws.map .operand
   | .app0 f => [.lp, .el f, .rp]
   | .app1 f x =>
     if f.isOp then .lp :: .el f :: x.prFull ++ [.rp]
@@ -135,15 +142,32 @@ def Expr.prFull : Expr → List Tok
     else .el f :: .lp :: l.prFull ++ .comma :: r.prFull ++ [.rp]
 
 /-- every element of the tree is the table's element of that name with the arity of its node, and leaves are
-    plain words (not element names, not punctuation) -/
+    plain words (not element names, not punctuation); formula trees: no `words` -/
 def Expr.Over (tbl : Table) : Expr → Prop
   | .leaf s => classify tbl s = .operand s
+  | .words _ => False
   | .app0 f => tbl.lookup f.name = some f ∧ f.arity = 0
   | .app1 f x => tbl.lookup f.name = some f ∧ f.arity = 1 ∧ x.Over tbl
   | .app2 f l r => tbl.lookup f.name = some f ∧ f.arity = 2 ∧ l.Over tbl ∧ r.Over tbl
 
+/-- the same, with runs of plain words allowed (rule antecedents) -/
+def Expr.OverW (tbl : Table) : Expr → Prop
+  | .leaf s => classify tbl s = .operand s
+  | .words ws => ∀ w ∈ ws, classify tbl w = .operand w
+  | .app0 f => tbl.lookup f.name = some f ∧ f.arity = 0
+  | .app1 f x => tbl.lookup f.name = some f ∧ f.arity = 1 ∧ x.OverW tbl
+  | .app2 f l r => tbl.lookup f.name = some f ∧ f.arity = 2 ∧ l.OverW tbl ∧ r.OverW tbl
+
+theorem Expr.Over.toW {tbl : Table} : ∀ {e : Expr}, e.Over tbl → e.OverW tbl
+  | .leaf _, h => h
+  | .words _, h => h.elim
+  | .app0 _, h => h
+  | .app1 _ _, h => ⟨h.1, h.2.1, Expr.Over.toW h.2.2⟩
+  | .app2 _ _ _, h => ⟨h.1, h.2.1, Expr.Over.toW h.2.2.1, Expr.Over.toW h.2.2.2⟩
+
 instance Expr.decOver (tbl : Table) : (e : Expr) → Decidable (e.Over tbl)
   | .leaf s => by unfold Expr.Over; infer_instance
+  | .words _ => by unfold Expr.Over; infer_instance
   | .app0 f => by unfold Expr.Over; infer_instance
   | .app1 f x => by
     unfold Expr.Over
@@ -173,4 +197,9 @@ def Table.arity (tbl : Table) (s : String) : Nat := ((tbl.lookup s).map (·.arit
 def Table.isOperator (tbl : Table) (s : String) : Bool := ((tbl.lookup s).map (·.isOp)).getD false
 def Table.operators (tbl : Table) : List String := (tbl.filter (·.2.1)).map (·.1)
 def Table.functions (tbl : Table) : List String := (tbl.filter (!·.2.1)).map (·.1)
+end Lang
+
+namespace Lang
+/-- the registered element of that name (a dummy function when the name is not registered) -/
+def Table.get (tbl : Table) (s : String) : Elem := (tbl.lookup s).getD ⟨s, false, 0, 0, 0⟩
 end Lang
